@@ -29,7 +29,7 @@ def g_oid(rng, numeric=None):
     if numeric:
         return ".".join(g_number(rng) for _ in range(rng.choice([2, 2, 3, 4, 7])))
     if rng.random() < 0.5:
-        return rng.choice(["cn", "objectClass", "sAMAccountName", "o", "test-", "a-b-c", "x1", "dn", "DN"])
+        return rng.choice(["cn", "objectClass", "sAMAccountName", "o", "test-", "a-b-c", "x1", "dn", "DN", "d", "n", "D", "N", "dnx", "xdn", "d-n", "dN1"])
     return rng.choice(LEAD) + "".join(rng.choice(KEY) for _ in range(rng.choice([0, 1, 2, 5, 12])))
 
 
@@ -208,6 +208,8 @@ FIXED_TEXTS = [
     # things lenient hex readers (bytes.fromhex, int(x, 16)) tolerate after a backslash: whitespace, signs, underscores, non-ASCII digits
     "(a=\\  )", "(cn=a*\\  *b)", "(cn=\\  *b)", "(cn=\\ \t*)", "(a=\\ f)", "(a=\\f )", "(a=\\+f)", "(a=\\-1)", "(a=\\0x)", "(a=\\1_)", "(a=\\_1)",
     "(a=\\\u0663\u0664)", "(a=\\\uff21\uff26)", "(a=x*\\\n\n*y)", "(a=\\\t1)", "(a:=\\  )", "(a>=\\ \x0b)",
+    "(cn:dn:=*)", "(cn:caseExactMatch:=*)", "(cn:dn:2.5.13.5:=*)", "(:caseExactMatch:=*)", ":dn:2.5.13.5:=*", "(cn:=*)", "(cn>=*)", "(cn<=*)", "(cn~=*)",
+    "(&(a=b)(!(cn;lang-en:DN:caseIgnoreMatch:=*)))", "(1bad x:=*)", "(cn:dn:=**)", "(cn:dn:=\\2a)", "(cn:dn:=* )",
     "(a>~=b)", "(a~>=b)", "(a<=b=c)", "(a=b~=c)", "(0=x)", "(0;o=x)",
 ]
 
